@@ -3,7 +3,7 @@ from __future__ import annotations
 
 from hypothesis import strategies as st
 
-from ..core import Clause, Dev, eq, expect_raise, true
+from ..core import Clause, Dev, eq, expect_raise, scribble, true
 from ..prop import Property
 from ..strategies import uint
 
@@ -47,10 +47,18 @@ def check_value(case):
     devs = []
     raw = v.to_bytes(w, "big")
     fields = []
+    other = (v + 1) % (1 << (8 * w)) if w else 0
     for tag, mk in _ctors(u, v, w):
         f = mk()
         fields.append(f)
         _views(devs, f, v, w, tag)
+        if w:
+            # a field handed out earlier may be re-assigned by its owner; asking for (v, w) again must still give (v, w)
+            g = mk()
+            g.value = other
+            _views(devs, g, other, w, tag + ".reassigned")
+            _views(devs, mk(), v, w, tag + ".again_after_earlier_result_was_reassigned")
+            _views(devs, f, v, w, tag + ".first_result_after_sibling_was_reassigned")
     ref = fields[0]
     if w in WIDTHS:
         cls = {1: u.ByteFieldU8, 2: u.ByteFieldU16, 4: u.ByteFieldU32, 8: u.ByteFieldU64}[w]
@@ -65,6 +73,11 @@ def check_value(case):
         for tag, g in back:
             _views(devs, g, v, w, tag)
             fields.append(g)
+        # decoding from a caller-owned buffer must not keep a reference to it
+        buf = bytearray(raw + tail)
+        g = u.ByteFieldGenerator.from_bytes(w, buf)
+        scribble(buf)
+        _views(devs, g, v, w, "gen_bytes.after_caller_reused_buffer")
     for i, g in enumerate(fields[1:]):
         true(devs, "eq_same", ref == g and g == ref, f"equal (value,width) fields compare unequal (#{i + 1})")
         true(devs, "hash_same", hash(ref) == hash(g), f"equal fields hash differently (#{i + 1})")
@@ -112,6 +125,11 @@ def st_pairs():
         if w:
             alts.append(st.just((w, v ^ 1)))
             alts.append(st.just((w, v ^ (1 << (8 * w - 1)))))
+        if w == 8:
+            # distinct values whose Python hashes coincide (ints hash modulo 2^61 - 1): equality must still tell them apart
+            m = (1 << 61) - 1
+            alts.append(st.sampled_from([1, 2, 7]).map(lambda k: (8, (v + k * m) % (1 << 64))))
+            alts.append(st.sampled_from([1, 2, 7]).map(lambda k: (8, (v - k * m) % (1 << 64))))
         return st.tuples(st.just(a), st.one_of(alts))
 
     return one.flatmap(second).map(lambda p: {"a": list(p[0]), "b": list(p[1])})
@@ -221,8 +239,10 @@ def check_assign(case):
             v = arg
         else:
             raw = bytes.fromhex(arg)
-            f.value = raw if kind == "bytes" else bytearray(raw)
+            given = raw if kind == "bytes" else bytearray(raw)
+            f.value = given
             v = int.from_bytes(raw[:w], "big")
+            scribble(given)  # the caller goes on using its own buffer
         _views(devs, f, v, w, "after_assign")
         g = u.UnsignedByteField(v, w)
         true(devs, "after_assign.eq_fresh", f == g and hash(f) == hash(g), f"step {i}: not equal to a fresh field")
@@ -331,8 +351,9 @@ CLAUSES = [
         strategy=st_pairs,
         check=check_pair,
         nontrivial=lambda c: c["a"] != c["b"] or c["a"][0] in (4, 8),
-        classify=lambda c: ["equal pair" if c["a"] == c["b"] else ("same value other width" if c["a"][1] == c["b"][1] else "different value")],
-        required=["equal pair", "same value other width", "different value"],
+        classify=lambda c: ["equal pair" if c["a"] == c["b"] else ("same value other width" if c["a"][1] == c["b"][1] else "different value")]
+        + (["distinct values with colliding hash"] if c["a"] != c["b"] and c["a"][0] == c["b"][0] == 8 and hash(c["a"][1]) == hash(c["b"][1]) else []),
+        required=["equal pair", "same value other width", "different value", "distinct values with colliding hash"],
         n={"quick": 2000, "thorough": 20000},
     ),
     Clause(
